@@ -274,6 +274,8 @@ def run_check(prop, cfg, tier, seed, replay=None):
             elif ty == "sanitizer_case":
                 case_hint = r.get("case")
             elif ty not in ("start",):
+                r["_variant"] = t["variant"]
+                r["_job"] = t["job"]
                 extra_records.append(r)
         # sanitizer logs
         san_found = False
